@@ -226,10 +226,17 @@ func c19frags(r *Rng, total int, nonstd *bool) ([]int, bool) {
 		return []int{r.Range(1, total-1)}, false
 	default: // outside the io.Reader good-practice: zero reads and/or EOF together with data
 		var fr []int
+		long := r.Chance(1, 4) // somewhere the source returns (0, nil) a few hundred times in a row before it goes on
 		for left := total; left > 0; {
 			k := r.Range(0, 6)
 			fr = append(fr, k)
 			left -= k
+			if long && r.Chance(1, 8) {
+				for z := r.Pick(99, 100, 101, 128, 256, 300, 1000); z > 0; z-- {
+					fr = append(fr, 0)
+				}
+				long = r.Chance(1, 3)
+			}
 		}
 		*nonstd = true
 		return fr, r.Bool()
